@@ -44,6 +44,9 @@ def run(ctx):
     ctx.rule(rule_pad_width, 'C06.R2')
     from .c18 import rule_config_keys
     ctx.rule(rule_config_keys, 'C06.R3')
+    # ... and through a partial function: the callable of a configuration binds the options stored when it is asked for
+    from .c18 import rule_get_func
+    ctx.rule(rule_get_func, 'C06.R3')
     ctx.rule(rule_sibling_forwarding, 'C06.R4')
 
 
